@@ -152,6 +152,9 @@ func (c *trCtx) local(obj types.Object) string {
 		return "_"
 	}
 	n := base
+	if c.importShadowsType(obj) {
+		c.used[base] = true // `field field`: a local named like a type of its package is renamed (trans_units_import.go)
+	}
 	for i := 1; c.used[n]; i++ {
 		n = fmt.Sprintf("%s_%d", base, i)
 	}
